@@ -1551,15 +1551,15 @@ RECIPES += (
         i = firstline
         f.write(("{:8d}" * i + "\\n").format(*ints[:i]))
         # full continuation lines; `i` is where each of these lines ends:
-        for i in range(firstline + 8, n, 8):
+        for i in range(firstline + 8, n + 1, 8):
             f.write(("{:8s}" + "{:8d}" * 8 + "\\n").format("", *ints[i - 8 : i]))
-        if n > i:
+        if n > i + 1:
             n -= i
             f.write(("{:8s}" + "{:8d}" * n + "\\n").format("", *ints[i:]))
     else:
         f.write(("{:8d}" * n + "\\n").format(*ints))
 ''', _NASINTS, ["C13-R4"], "wtnasints: full lines by a range over their end positions, the loop variable used after the loop",
-            "an exactly full last line is left to the remainder, which then gets 8 integers on a line of 8 (fine) - but 16 left over go on one line")
+            "a single integer left after the full lines is not written")
     + _pair('''    n = len(ints)
     firstline = 10 - start
     if n >= firstline:
@@ -1690,3 +1690,16 @@ RECIPES += (
                         mat[ci, ri] = val
 ''', _RDDMIG_TERMS, ["C13-R3"], "rddmig: the values of a card from a generator expression, one loop for real and complex cards", "imaginary parts read from the next term's row grid")
 )
+
+
+# ---- further behaviour-preserving spellings tried while generalising (second pass)
+RECIPES += [
+    ("C13", "neutral", [], B, '    n = len(form.format(1, 1))\n    if n != 16 and n != 32:\n        raise ValueError(f"`form` produces a {n} length string. It must be 16 or 32.")\n', '    if (n := len(form.format(1, 1))) not in {16, 32}:\n        raise ValueError(f"`form` produces a {n} length string. It must be 16 or 32.")\n', 'tabled1 guard with a walrus and a set literal'),
+    ("C13", "neutral", [], B, '        f.write("        ")\n        for j in range(r, npts):\n            f.write(form.format(t[j], d[j]))\n    f.write("ENDT\\n")\n', '        f.write("        ")\n        f.writelines(form.format(a, b) for a, b in zip(t[r:], d[r:]))\n    f.write("ENDT\\n")\n', 'tabled1 small field: leftover pairs by writelines(<generator expression>)'),
+    ("C13", "neutral", [], B, '        f.write("        ")\n        for j in range(r, npts):\n            f.write(form.format(t[j], d[j]))\n    f.write("ENDT\\n")\n', '        f.write("        " + "".join(map(form.format, t[r:], d[r:])))\n    f.write("ENDT\\n")\n', 'tabled1 small field: leftover pairs by "".join(map(form.format, ...))'),
+    ("C13", "neutral", [], B, '        c = np.size(v, 1)\n        if c < 8:\n            v = np.hstack((v, np.zeros((np.size(v, 0), 8 - c))))\n        return v\n', '        ncol = v.shape[1]\n        pad = max(0, 8 - ncol)\n        if pad:\n            v = np.hstack((v, np.zeros((v.shape[0], pad))))\n        return v\n', 'rdgrids: pad = max(0, 8 - ncol), padded when pad is non-zero'),
+    ("C13", "neutral", [], B, '    if n != 16 and n != 32:\n        raise ValueError(f"`form` produces a {n} length string. It must be 16 or 32.")\n', '    _PER_LINE = {16: 4, 32: 2}\n    if n not in _PER_LINE:\n        raise ValueError(f"`form` produces a {n} length string. It must be 16 or 32.")\n', 'tabled1 guard by membership in a dict of layouts'),
+    ("C13", "neutral", [], B, '    n = len(ints)\n    firstline = 10 - start\n    if n >= firstline:\n        i = firstline\n        f.write(("{:8d}" * i + "\\n").format(*ints[:i]))\n        while n >= i + 8:\n            f.write(("{:8s}" + "{:8d}" * 8 + "\\n").format("", *ints[i : i + 8]))\n            i += 8\n        if n > i:\n            n -= i\n            f.write(("{:8s}" + "{:8d}" * n + "\\n").format("", *ints[i:]))\n    else:\n        f.write(("{:8d}" * n + "\\n").format(*ints))\n', '    n = len(ints)\n    firstline = 10 - start\n    i = min(firstline, n)\n    f.write(("{:8d}" * i + "\\n").format(*ints[:i]))\n    while i < n:\n        j = min(i + 8, n)\n        f.write(("{:8s}" + "{:8d}" * (j - i) + "\\n").format("", *ints[i:j]))\n        i = j\n', 'wtnasints: a single while loop, each line up to j = min(i + 8, n)'),
+    ("C13", "neutral", [], B, '        if np.iscomplexobj(m):\n            mtype = 4 if m.dtype.itemsize > 8 else 3\n        else:\n            mtype = 2 if m.dtype.itemsize > 4 else 1\n', '        mtype = {(False, False): 1, (False, True): 2, (True, False): 3, (True, True): 4}[\n            bool(np.iscomplexobj(m)), m.dtype.itemsize > (8 if np.iscomplexobj(m) else 4)\n        ]\n', 'wtdmig: matrix type from a dict keyed by (is complex, is double)'),
+    ("C13", "neutral", [], B, '    output = [f"SET {setid:d} = "]\n    start = 0\n    while start < length:\n        end = _find_sequence(ids, start)\n        if end > start:\n            output.append(f"{ids[start]:d} THRU {ids[end]:d}, ")\n            start = end + 1\n        else:\n            output.append(f"{ids[start]:d}, ")\n            start += 1\n    output[-1] = output[-1].rstrip(", ")  # strip the trailing comma from the last item\n', '    output = [f"SET {setid:d} = "]\n    start = 0\n    while start < length:\n        end = _find_sequence(ids, start)\n        item = f"{ids[start]:d}" if end == start else f"{ids[start]:d} THRU {ids[end]:d}"\n        output.append(item + ", ")\n        start = end + 1\n    output[-1] = output[-1].rstrip(", ")  # strip the trailing comma from the last item\n', 'wtset: the item by a conditional expression, one update of the cursor'),
+]
